@@ -128,7 +128,13 @@ class CallMixin:
             if isinstance(spec, tuple) and spec[0] == "pure":
                 if pos or kw:
                     return [(st, Exc("TypeError", self.line(node), f"{meth}() takes no arguments"))]
-                return [(st, spec[1].wrap(kind.method_fn(meth)(f.self_val.t)))]
+                r = spec[1].wrap(kind.method_fn(meth)(f.self_val.t))
+                for fct in spec[1].wf(r):
+                    st.assume(fct)
+                if len(spec) > 2:                       # facts(recv, result): the callee's own (assumed) contract
+                    for fct in spec[2](f.self_val, r):
+                        st.assume(fct)
+                return [(st, r)]
             return spec(self, st, f.self_val, pos, kw, node)
         if f.what == "bound":
             return self.call_method(st, f.self_val, f.payload, pos, kw, node, star)
@@ -303,6 +309,20 @@ class CallMixin:
         outs.append((st, res))
         return outs
 
+    def freeze_record(self, st, x, kind):
+        """snapshot a concrete-shape dict/object as a record value of a TupleKey kind"""
+        if isinstance(x, VAtom) and x.kind == kind:
+            return x
+        if not (isinstance(x, VObj) and st.heap[x.oid].k == "inst"):
+            raise Unsupported(f"cannot store {x!r} in a list of {kind.name}")
+        flds = st.heap[x.oid].fields
+        items = []
+        for name, k in kind.fields:
+            if name not in flds:
+                raise Unsupported(f"record field '{name}' missing")
+            items.append(ops.coerce(st, flds[name], k, self.ctx))
+        return kind.pack(items)
+
     def unit_name(self):
         return self.ctx.unit or "?"
 
@@ -451,6 +471,20 @@ class CallMixin:
                 return [(st, st.alloc(HeapObj("cell", val=v)))]
         # ---- sequences
         if isinstance(v, (VSeq, VEmptySeq, VTuple)):
+            if meth in ("append", "extend") and isinstance(v, VSeq) and isinstance(v.elem, TupleKey):
+                xs = [pos[0]] if meth == "append" else None
+                if xs is None:
+                    o = ops.deref(st, pos[0])
+                    if isinstance(o, VEmptySeq):
+                        return [(st, VNone())]
+                    if not (isinstance(o, (VTuple, VSeq)) and o.items is not None):
+                        raise Unsupported("extend of a record list with a symbolic list")
+                    xs = o.items
+                cur = v
+                for x in xs:
+                    cur = cur.append(self.freeze_record(st, x, v.elem))
+                setcell(st, cur)
+                return [(st, VNone())]
             if meth == "append":
                 x = pos[0]
                 if isinstance(v, VTuple):
